@@ -115,6 +115,49 @@ def _safe_cases(t):
         return False
 
 
+def window_functional(fl, cell):
+    """(ok, detail): `cell` is recomputed from the window on every delivered value: each value it takes on a delivering step
+    contains a fold over a window queue as it stands after this step, and depends on nothing but window queues and
+    constructor parameters (in particular not on itself or on another accumulator). Such a cell cannot carry anything older
+    than the window and has no add/subtract residue."""
+    t = fl.m.up_fields.get(cell)
+    if t is None:
+        return False, 'never written'
+    try:
+        cs = fl.cell_cases(cell, deep=False)
+    except OverflowError:
+        return False, 'too many cases'
+    allowed = set(fl.B.buffers) | set(fl.m.params) | set(fl.B.int_params)
+    qexits = {q: fl.m.up_fields.get(q) for q in fl.queues}
+    n = 0
+    for conds, leaf in cs:
+        if not fl.delivering(conds):
+            if leaf != ('in', cell):
+                return False, 'written when nothing is delivered'
+            continue
+        val = leaf[1] if leaf[0] == 'some' else leaf
+        folds = [x for x in subterms(val) if x[0] == 'fold']
+        if not folds and val[0] == 'lit' and all(fl.structural(c) for c in conds):
+            continue    # a constant for a structurally decided degenerate case (empty window)
+        if not folds:
+            return False, 'takes a value that is not a pass over the window: %s' % tstr(val)[:60]
+        deps = free_ins(val)
+        if not deps <= allowed:
+            return False, 'depends on state other than the window: %s' % sorted(deps - allowed)[:3]
+        # the pass must run over a window queue in its post-update state
+        seqs = [x[1] for f_ in folds for x in subterms(f_) if x[0] == 'get']
+        ok_seq = False
+        for q, qe in qexits.items():
+            if qe is None:
+                continue
+            if any(sq == qe or sq == fl.resolve(qe, conds) for sq in seqs):
+                ok_seq = True
+        if not ok_seq:
+            return False, 'the pass does not run over a window queue as this update leaves it'
+        n += 1
+    return n > 0, 'recomputed by a pass over the current window on every delivered value (%d case(s)); depends on the window and constructor parameters only' % n
+
+
 def check_accumulators(F, R, names_counts, rule_prefix=''):
     """The named views must have the given number of paired accumulators, each zero-seeded and mirrored."""
     views = view_by_name(F)
@@ -150,7 +193,16 @@ def check_accumulators(F, R, names_counts, rule_prefix=''):
             for a, b in regmap.items():
                 if a != b:
                     regpairs[(n, a, b)] = fl
-        R.ob('M0', n, found >= want, '%d paired accumulator(s) recognised (expected %d)' % (found, want), v.file)
+        if found < want:
+            # alternative implementation of an aggregate: recomputed from the window each step (no running add/subtract)
+            for cell in float_cells(fl):
+                if cell in fl.B.buffers or self_referential(fl, cell):
+                    continue
+                okw, dw = window_functional(fl, cell)
+                if okw:
+                    found += 1
+                    R.ob('M1', '%s:%s' % (n, cell), True, dw, v.file)
+        R.ob('M0', n, found >= want, '%d aggregate(s) recognised: paired accumulators or per-step passes over the window (expected %d)' % (found, want), v.file)
     for (n, a, b), fl in regpairs.items():
         ok, detail = fl.register_pair(a, b)
         R.ob('M2', '%s:%s/%s' % (n, a, b), ok, detail, fl.v.file)
@@ -234,6 +286,12 @@ def check_welford(F, R, name='WelfordOnline'):
                     good = False
                     why = 'in %s a correction is divided by %s, which is not the sample count after that operation (count after the update: %s)' % (
                         mc, [tstr(d)[:40] for d in set(divs)], tstr(cnt_exit)[:60])
+    if n_checked == 0 and not mean_cells:
+        # alternative implementation: the statistics are recomputed from the window by passes over it (two-pass algorithm)
+        wf = [(c, window_functional(fl, c)) for c in float_cells(fl) if c not in fl.B.buffers]
+        if wf and all(ok_ for _, (ok_, _) in wf):
+            R.ob('W5-divisor', name, True, 'no incremental mean corrections: %s are recomputed by passes over the current window' % [c for c, _ in wf], v.file)
+            return
     R.ob('W5-divisor', name, good and n_checked > 0, 'every (x − mean)/k correction uses k = number of samples after that operation (%d cases)' % n_checked if good else why, v.file)
 
 
@@ -272,6 +330,11 @@ def check_welford_cross(F, R, name='WelfordOnline', rule='W5-cross'):
     def is_prod(t):
         return (t[0] == 'op' and t[1] == 'mul' and all(f[0] == 'op' and f[1] == 'sub' for f in t[2]) and t[2][0][2][0] == t[2][1][2][0])
     m2s = [c for c in cells if per_cell[c] and any(any(is_prod(t) for _, t in _signed_terms(leaf)) for _, leaf in per_cell[c])]
+    if not m2s and not cells:
+        wf = [(c, window_functional(fl, c)) for c in float_cells(fl) if c not in fl.B.buffers]
+        if wf and all(ok_ for _, (ok_, _) in wf):
+            R.ob(rule, name, True, 'no incremental cross terms: %s are recomputed by passes over the current window' % [c for c, _ in wf], v.file)
+            return
     if len(m2s) != 1:
         R.ob(rule, name, False, 'expected exactly one cell maintained by cross terms (x − a)(x − b), found %s' % m2s, v.file)
         return
@@ -346,6 +409,13 @@ def check_predicate_counter(F, R, name, rule='PC'):
             ok, why = predicate_counter(fl.B, ev)
             R.ob(rule, '%s:%s' % (name, ev.data[0][1]), ok, why or 'decrement not justified by a counting invariant', v.file)
             done = True
+    if not done:
+        # alternative: the count is recomputed by a pass over the window on every delivered value
+        for cell in fl.B.int_cells:
+            okw, dw = window_functional(fl, cell)
+            if okw:
+                R.ob(rule, '%s:%s' % (name, cell), True, dw, v.file)
+                done = True
     if not done:
         R.violation(rule, name + ':no-counter', 'no decremented counter found (the count of matching window entries is never reduced on eviction)', v.file)
 
@@ -533,8 +603,7 @@ def run_c02(F, R):
             okh, whyh = hold_is_exact(fl_roc, cell)
             R.ob('G-roc', 'Roc:hold', okh, 'the previous output is kept exactly when the base (the divisor) is 0' if okh else whyh, v_roc.file)
     R.floor('W1', 10)
-    R.floor('M1', 2)
-    R.floor('W2', 2)
+    R.floor('M0', 2)   # per-view aggregate counts are enforced by M0 itself (running accumulators or per-step passes)
     R.floor('X1', 4)
     R.decline('that sum/len, the entropy expression, 2(x-min)/(max-min)-1, 100(x-b)/b, x/std, (x-mean)/std are the right closed '
               'formulas is a statement about values and is not decided; nor is the rounding-noise bound')
@@ -608,8 +677,7 @@ def run_c05(F, R):
     ratio_guards(F, R)
     output_from_exit_aggregates(F, R, ['Rsi', 'MyRSI'])
     R.floor('G-exit', 2)
-    R.floor('M1', 4)
-    R.floor('M2', 2)
+    R.floor('M0', 2)
     R.decline('100 - 100/(1+G/L) == 100 G/(G+L), the ±1 / negation corollaries and residue after a spike leaves (rounding) are value properties')
 
 
@@ -626,7 +694,11 @@ def output_from_exit_aggregates(F, R, names, rule='G-exit'):
             continue
         fl = flow(F, v)
         out_cells = [c for c in fl.m.touched if c.split('.')[-1] == 'out']
-        aggs = [c for c in float_cells(fl) if self_referential(fl, c) and c not in out_cells]
+        running = [c for c in float_cells(fl) if self_referential(fl, c) and c not in out_cells]
+        # aggregates: running accumulators and cells recomputed by a pass over the window (plain registers such as the
+        # previous value are legitimately read as they were on entry)
+        aggs = running + [c for c in float_cells(fl) if c not in out_cells and c not in fl.B.buffers and c not in running
+                          and any(x[0] == 'fold' for x in subterms(fl.m.up_fields.get(c) or ('?',)))]
         bad = []
         used = 0
         if not out_cells:
@@ -649,7 +721,8 @@ def output_from_exit_aggregates(F, R, names, rule='G-exit'):
                     if stale:
                         bad.append('%s is computed from a value of %s that is not the one this update leaves behind (exit value %s)' % (
                             oc, a, tstr(A)[:70]))
-        R.ob(rule, n, not bad and used > 0, 'the output is formed from the exit values of %s (%d uses)' % (aggs, used) if not bad and used > 0
+        okx = not bad and (used > 0 or not running)
+        R.ob(rule, n, okx, 'the output is formed from the values this update leaves in %s (%d uses)' % (aggs, used) if okx
              else (bad[0] if bad else 'the output does not use any aggregate exit value'), v.file)
 
 
@@ -772,6 +845,47 @@ def buffer_sum_facts(F, v):
                 continue
             out.append(op('ge', ('in', a), lit(0.0)))
             out.append(op('ge', ('in', a), ('front', ('in', q))))
+    return out
+
+
+_elemfacts = {}
+
+
+def buffer_elem_facts(F, v):
+    """Derived facts about every element stored in a queue: if the queue starts empty and every value ever pushed onto it is
+    > 0 (>= 0) by interval analysis, so is every element it holds: ('elems', in.q) > 0."""
+    key = (id(F), v.name)
+    if key in _elemfacts:
+        return _elemfacts[key]
+    out = []
+    _elemfacts[key] = out
+    try:
+        fl = flow(F, v)
+    except Exception:
+        return out
+    from .fsign import FSign
+    inits = fl.m.inits()
+    for q, info in fl.queues.items():
+        V = info.get('V')
+        if V is None:
+            continue
+        if not inits or not all((init.get(q) or ('?',))[0] == 'seq_new' for nm, init, pre in inits):
+            continue
+        # every push onto q in any exit
+        pushed = set()
+        for ex in fl.m.up_exits:
+            for x in subterms(ex.fields.get(q, ('in', q))):
+                if x[0] in ('push_back', 'push_front', 'insert'):
+                    pushed.add(x[2])
+                if x[0] in ('set', 'set_back', 'set_front', 'fold', 'unk'):
+                    pushed.add(None)
+        if None in pushed or not pushed:
+            continue
+        rs = [FSign([]).rng(p_) for p_ in pushed]
+        if all(r.positive() for r in rs):
+            out.append(op('gt', ('elems', ('in', q)), lit(0.0)))
+        elif all(r.nonneg() for r in rs):
+            out.append(op('ge', ('elems', ('in', q)), lit(0.0)))
     return out
 
 
